@@ -15,7 +15,8 @@ theorem tableOf_canon (cfg : Cfg) (d : Decl) (h : Canon cfg.db d) : tableOf cfg 
 
 /-- every own element / value comes from a line of its product's table; `<P>_DIR` values are filed under `P` -/
 structure WellOwned (cfg : Cfg) (e : Env) : Prop where
-  path : ∀ var p rel, Elem.own p rel ∈ e.pathOf var → ∃ app, Act.prepend var (.own rel) app ∈ tableOf cfg p
+  path : ∀ var p rel, Elem.own p rel ∈ e.pathOf var →
+    ∃ vals app, Act.prepend var vals app ∈ tableOf cfg p ∧ Val.own rel ∈ vals
   vars : ∀ var p rel, aget e.vars var = some (.own p rel) → Act.set var (.own rel) ∈ tableOf cfg p
   dirs : ∀ n p rel, aget e.dirs n = some (.own p rel) → p.1 = n
 
@@ -52,26 +53,26 @@ theorem NoResidue.of_sub {X : Prod → Prop} {e' e : Env} (h : NoResidue X e) (h
 /-! ### one non-dependency action, unsetup direction -/
 
 theorem acts_cons_nondep (rec : Rec) (cfg : Cfg) (fwd : Bool) (depth : Nat) (noRec : Bool) (vro : List VroEnt)
-    (d : Decl) (a : Act) (rest : List Act) (s : St) (ha : ∀ n o j v x, a ≠ .dep n o j v x) :
+    (d : Decl) (a : Act) (rest : List Act) (s : St) (ha : ∀ n o j v x t, a ≠ .dep n o j v x t) :
     acts rec cfg fwd depth noRec vro d (a :: rest) s = acts rec cfg fwd depth noRec vro d rest (a.apply fwd d.prod s) := by
   cases a with
-  | dep n o j v x => exact absurd rfl (ha n o j v x)
+  | dep n o j v x t => exact absurd rfl (ha n o j v x t)
   | prepend _ _ _ => simp only [acts]
   | set _ _ => simp only [acts]
   | alias _ _ => simp only [acts]
 
 theorem apply_false_spec (p : Prod) (a : Act) (s : St) :
     Sub (a.apply false p s).env s.env ∧ (∀ n, (a.apply false p s).env.rec? n = s.env.rec? n) ∧
-    (∀ var val app, a = .prepend var val app → val.elem p ∉ (a.apply false p s).env.pathOf var) ∧
+    (∀ var vals app, a = .prepend var vals app → ∀ val ∈ vals, val.elem p ∉ (a.apply false p s).env.pathOf var) ∧
     (∀ var val, a = .set var val → aget (a.apply false p s).env.vars var = none) := by
   cases a with
-  | prepend var val app =>
+  | prepend var vals app =>
     refine ⟨⟨?_, fun _ _ h => h, fun _ _ h => h, fun _ _ h => h⟩, fun _ => rfl, ?_, ?_⟩
     · intro var2 x hx
-      exact (mem_pathOf_removePath s.env var var2 (val.elem p) x hx).1
-    · intro var' val' app' he hm
+      exact (mem_pathOf_removePath s.env var var2 (vals.map (Val.elem p)) x hx).1
+    · intro var' vals' app' he val hval hm
       cases he
-      exact ((mem_pathOf_removePath_same s.env var (val.elem p) _).1 hm).2 rfl
+      exact ((mem_pathOf_removePath_same s.env var (vals.map (Val.elem p)) _).1 hm).2 (List.mem_map.2 ⟨val, hval, rfl⟩)
     · intro var' val' he; cases he
   | set var val =>
     refine ⟨⟨fun _ _ h => h, ?_, fun _ _ h => h, fun _ _ h => h⟩, fun _ => rfl, ?_, ?_⟩
@@ -84,7 +85,7 @@ theorem apply_false_spec (p : Prod) (a : Act) (s : St) :
     refine ⟨Sub.refl _, fun _ => rfl, ?_, ?_⟩
     · intro _ _ _ he; cases he
     · intro _ _ he; cases he
-  | dep n o j v x =>
+  | dep n o j v x t =>
     refine ⟨Sub.refl _, fun _ => rfl, ?_, ?_⟩
     · intro _ _ _ he; cases he
     · intro _ _ he; cases he
@@ -99,7 +100,7 @@ theorem acts_false_spec (cfg : Cfg) (rec : Rec) (hrec : UnSpec cfg rec) (X : Pro
     (noRec : Bool) (vro : List VroEnt) (d : Decl) (l : List Act) :
     ∀ s s', WellOwned cfg s.env → NoResidue X s.env → acts rec cfg false depth noRec vro d l s = .ok s' →
       NoResidue X s'.env ∧ Sub s'.env s.env ∧
-      (∀ var val app, Act.prepend var val app ∈ l → val.elem d.prod ∉ s'.env.pathOf var) ∧
+      (∀ var vals app, Act.prepend var vals app ∈ l → ∀ val ∈ vals, val.elem d.prod ∉ s'.env.pathOf var) ∧
       (∀ var val, Act.set var val ∈ l → aget s'.env.vars var = none) := by
   induction l with
   | nil =>
@@ -108,16 +109,17 @@ theorem acts_false_spec (cfg : Cfg) (rec : Rec) (hrec : UnSpec cfg rec) (X : Pro
     exact ⟨hn, Sub.refl _, by simp, by simp⟩
   | cons a rest ih =>
     intro s s' hw hn h
-    by_cases hdep : ∃ n o j v x, a = .dep n o j v x
-    · obtain ⟨n, o, j, v, x, rfl⟩ := hdep
+    by_cases hdep : ∃ n o j v x t, a = .dep n o j v x t
+    · obtain ⟨n, o, j, v, x, t, rfl⟩ := hdep
       have tail : ∀ s1 : St, WellOwned cfg s1.env → NoResidue X s1.env → Sub s1.env s.env →
           acts rec cfg false depth noRec vro d rest s1 = .ok s' →
           NoResidue X s'.env ∧ Sub s'.env s.env ∧
-          (∀ var val app, Act.prepend var val app ∈ Act.dep n o j v x :: rest → val.elem d.prod ∉ s'.env.pathOf var) ∧
-          (∀ var val, Act.set var val ∈ Act.dep n o j v x :: rest → aget s'.env.vars var = none) := by
+          (∀ var vals app, Act.prepend var vals app ∈ Act.dep n o j v x t :: rest →
+            ∀ val ∈ vals, val.elem d.prod ∉ s'.env.pathOf var) ∧
+          (∀ var val, Act.set var val ∈ Act.dep n o j v x t :: rest → aget s'.env.vars var = none) := by
         intro s1 hw1 hn1 hs1 h1
         obtain ⟨hn2, hs2, hp2, hv2⟩ := ih s1 s' hw1 hn1 h1
-        exact ⟨hn2, hs2.trans hs1, fun var val app hm => hp2 var val app (by simpa using hm),
+        exact ⟨hn2, hs2.trans hs1, fun var vals app hm => hp2 var vals app (by simpa using hm),
                fun var val hm => hv2 var val (by simpa using hm)⟩
       simp only [acts] at h
       split at h
@@ -133,16 +135,16 @@ theorem acts_false_spec (cfg : Cfg) (rec : Rec) (hrec : UnSpec cfg rec) (X : Pro
         · rename_i s1 hr
           simp only [Bool.false_and, Bool.false_eq_true, if_false] at h
           exact tail ⟨s.env, s.aliases, s.unaliased, s1.already⟩ hw hn (Sub.refl _) h
-    · have ha : ∀ n o j v x, a ≠ .dep n o j v x := fun n o j v x e => hdep ⟨n, o, j, v, x, e⟩
+    · have ha : ∀ n o j v x t, a ≠ .dep n o j v x t := fun n o j v x t e => hdep ⟨n, o, j, v, x, t, e⟩
       rw [acts_cons_nondep rec cfg false depth noRec vro d a rest s ha] at h
       obtain ⟨hs1, hr1, hp1, hv1⟩ := apply_false_spec d.prod a s
       obtain ⟨hn2, hs2, hp2, hv2⟩ := ih _ s' (hw.of_sub hs1) (hn.of_sub hs1 hr1) h
       refine ⟨hn2, hs2.trans hs1, ?_, ?_⟩
-      · intro var val app hm
+      · intro var vals app hm val hval
         simp only [List.mem_cons] at hm
         rcases hm with hm | hm
-        · exact fun hx => hp1 var val app hm.symm (hs2.path var _ hx)
-        · exact hp2 var val app hm
+        · exact fun hx => hp1 var vals app hm.symm val hval (hs2.path var _ hx)
+        · exact hp2 var vals app hm val hval
       · intro var val hm
         simp only [List.mem_cons] at hm
         rcases hm with hm | hm
@@ -219,9 +221,9 @@ theorem setup_false_spec (cfg : Cfg) : ∀ fuel, UnSpec cfg (setup cfg fuel) := 
         · exact Or.inl hX
         · exfalso
           subst hpd
-          obtain ⟨app, hline⟩ := hw1.path var _ rel hm
+          obtain ⟨vals, app, hline, hval⟩ := hw1.path var _ rel hm
           rw [htab] at hline
-          exact hp1 var (.own rel) app hline hm
+          exact hp1 var vals app hline (.own rel) hval hm
         · exact Or.inr hr
       · intro var p rel hm
         rcases hn1.vars var p rel hm with (hX | hpd) | hr
